@@ -31,6 +31,7 @@ import (
 	"fmt"
 	"io"
 	"math/big"
+	mrand "math/rand"
 	"net/http"
 	"strings"
 	"sync"
@@ -43,6 +44,7 @@ import (
 	jconfig "go.minekube.com/gate/pkg/edition/java/config"
 	"go.minekube.com/gate/pkg/edition/java/proto/packet"
 	"go.minekube.com/gate/pkg/edition/java/proxy"
+	"go.minekube.com/gate/pkg/edition/java/proxy/message"
 	"go.minekube.com/gate/pkg/edition/java/proxy/verifh/e2e"
 	"go.minekube.com/gate/pkg/edition/java/proxy/verifh/lib"
 	"go.minekube.com/gate/pkg/gate/proto"
@@ -138,17 +140,27 @@ type scenario struct {
 	Protocol     int    `json:"protocol"`
 	Name         string `json:"name"`
 	PreLogin     string `json:"prelogin"`
+	PluginMsgs   int    `json:"prelogin_plugin_messages"` // login plugin messages the PreLogin subscriber sends
 	Session      string `json:"session_outcome"`
 	Ops          []op   `json:"ops"`
+	Burst        bool   `json:"burst"` // the packet after the first login start is sent without waiting for the proxy's reaction
 	PreventProxy bool   `json:"prevent_proxy_connections"`
 }
+
+// firstLoginPluginProtocol: login plugin request/response exist since 1.13; for older clients
+// SendLoginPluginMessage refuses and the PreLogin subscriber's messages do not exist.
+const firstLoginPluginProtocol = 393
+
+// saltedProtocol: only the 1.19-1.19.2 encryption response has the "salt + signature" form.
+func saltedProtocol(p int) bool { return p == 759 || p == 760 }
 
 func TestC08(t *testing.T) {
 	r := lib.Start(t, "C08")
 	defer r.Finish()
-	r.Rule("one case = one login session against a live online-mode proxy: protocol from {47,340,761,763,764,767,775}; <=5 ops over {login-start(valid|invalid name), encryption-response(valid | wrong token | short token | other key | bad secret | 15-byte secret | swapped), login-plugin-response, unknown packet} incl. repeats; session-server outcome from {ok, ok-other-name, 200-empty, 204, 401, 500, malformed, no-name, neterr}; PreLogin result from {none, force-offline, deny}; distinct = (ops, outcome, prelogin, protocol>=764)")
-	r.Assume("1.19-1.19.2 clients (signed player keys) are not generated: a valid Mojang-signed key cannot be forged offline")
+	r.Rule("one case = one login session against a live online-mode proxy: protocol from {47,340,759,760,761,763,764,767,775} (759/760 = key-less 1.19-1.19.2 login start); <=5 ops over {login-start(valid|invalid name), encryption-response(valid | wrong token | short token | other key | bad secret | 15-byte secret | swapped | 759/760 only, salted wire form: salt+random signature bytes, salt+RSA-encrypted token in the signature field, salt+empty signature), login-plugin-response(unknown id), answer-all / answer-one of the outstanding login plugin messages (or a repeated answer), unknown packet} incl. repeats; session-server outcome from {ok, ok-other-name, 200-empty, 204, 401, 500, malformed, no-name, neterr}; PreLogin result from {none, force-offline, deny} x PreLogin subscriber sends {0,1,2} login plugin messages with unique payloads (login completion then waits for the client's replies); burst = the packet after the first login start is not delayed until the proxy reacted; distinct = (ops, outcome, prelogin, plugin messages, burst, protocol class)")
+	r.Assume("1.19-1.19.2 clients WITH a signed player key are not generated: a valid Mojang-signed key cannot be forged offline; key-less 1.19-1.19.2 clients are (forceKeyAuthentication=false)")
 	r.Assume("the RSA key pair is generated by the harness and injected through auth.Options.PrivateKey; the session server is an http.RoundTripper")
+	r.Assume("a salted 1.19 encryption response whose signature field holds the RSA-encrypted exact verify token is judged like an unsalted valid one: the statement's condition 'returned the exact verify token' is literally met; both admitting and closing are accepted")
 
 	priv, err := rsa.GenerateKey(rand.Reader, 1024)
 	if err != nil {
@@ -157,6 +169,10 @@ func TestC08(t *testing.T) {
 	other, _ := rsa.GenerateKey(rand.Reader, 1024)
 	pubDER, _ := x509.MarshalPKIXPublicKey(priv.Public())
 	ss := &sessionServer{}
+	chanID, err := message.NewChannelIdentifier("verif", "c08")
+	if err != nil {
+		t.Fatal(err)
+	}
 	newHarness := func(prevent bool) (*e2e.Harness, *preLoginCtl, *evRec) {
 		authn, err := auth.New(auth.Options{PrivateKey: priv, Client: &http.Client{Transport: ss}})
 		if err != nil {
@@ -176,7 +192,22 @@ func TestC08(t *testing.T) {
 		ctl := &preLoginCtl{}
 		rec := &evRec{}
 		event.Subscribe(h.Ev, 0, func(e *proxy.PreLoginEvent) {
-			switch ctl.get() {
+			m := ctl.get()
+			rec.add("prelogin:" + e.Username())
+			// a subscriber that asks the joining client 0..2 questions over login plugin
+			// messages; the proxy completes the login only after the client replied to all
+			if m.msgs > 0 {
+				if lpc, ok := e.Conn().(proxy.LoginPhaseConnection); ok {
+					for j := 0; j < m.msgs; j++ {
+						payload := ctl.nextPayload(m.tag)
+						err := lpc.SendLoginPluginMessage(chanID, []byte(payload), &replyConsumer{ctl: ctl, tag: m.tag, payload: payload})
+						ctl.sendResult(m.tag, err)
+					}
+				} else {
+					ctl.sendResult(m.tag, fmt.Errorf("PreLoginEvent.Conn() is %T, no LoginPhaseConnection", e.Conn()))
+				}
+			}
+			switch m.result {
 			case "force-offline":
 				e.ForceOfflineMode()
 			case "deny":
@@ -191,12 +222,13 @@ func TestC08(t *testing.T) {
 	hB, ctlB, recB := newHarness(true)
 
 	rng := r.Rng("cases")
-	n := r.N(700, 30000)
-	protos := []proto.Protocol{47, 340, 761, 763, 764, 767, 775}
+	n := r.N(1500, 40000)
+	protos := []proto.Protocol{47, 340, 759, 760, 761, 763, 764, 767, 775}
 	erKinds := []string{"er-valid", "er-wrong-token", "er-short-token", "er-other-key", "er-bad-secret", "er-15-byte-secret", "er-swapped"}
+	saltedKinds := []string{"er-salted-random-sig", "er-salted-token-as-sig", "er-salted-empty-sig"}
 	sessions := []string{"ok", "ok", "ok", "ok-other-name", "200-empty", "204", "401", "500", "malformed", "no-name", "neterr"}
 	var admittedOK, refused, closedOK, onlineReqsChecked int64
-	stalls := 0
+	stalls, keptOpen := 0, 0
 
 	for i := 0; i < n; i++ {
 		sc := scenario{Protocol: int(protos[rng.Intn(len(protos))]), Name: fmt.Sprintf("U%d_%d", r.Seed%1000, i), Session: sessions[rng.Intn(len(sessions))], PreLogin: "none", PreventProxy: rng.Intn(4) == 0}
@@ -209,20 +241,63 @@ func TestC08(t *testing.T) {
 		case 1:
 			sc.PreLogin = "deny"
 		}
-		// op sequence: biased towards the valid shape LS, ER with mutations
-		shape := rng.Intn(10)
-		switch {
-		case shape < 4:
-			sc.Ops = []op{{Kind: "ls"}, {Kind: erKinds[rng.Intn(len(erKinds))]}}
+		if rng.Intn(3) == 0 {
+			sc.PluginMsgs = 1 + rng.Intn(2)
+		}
+		sc.Burst = rng.Intn(5) == 0
+		// encryption-response kinds that exist on this protocol's wire
+		erPool := erKinds
+		if saltedProtocol(sc.Protocol) {
+			erPool = append(append(append([]string(nil), erKinds...), saltedKinds...), saltedKinds...)
+		}
+		erAny := func() string {
 			if rng.Intn(2) == 0 {
-				sc.Ops[1].Kind = "er-valid"
+				return "er-valid"
 			}
-		case shape < 6:
-			sc.Ops = []op{{Kind: "ls"}, {Kind: "lpr"}, {Kind: "er-valid"}}
-		default:
+			return erPool[rng.Intn(len(erPool))]
+		}
+		mk := func(kinds ...string) []op {
+			var l []op
+			for _, k := range kinds {
+				l = append(l, op{Kind: k})
+			}
+			return l
+		}
+		random := func() {
+			all := append([]string{"ls", "ls", "ls-invalid", "lpr", "unknown", "answer-all", "answer-one"}, erPool...)
 			for k := 1 + rng.Intn(5); k > 0; k-- {
-				all := append([]string{"ls", "ls", "ls-invalid", "lpr", "unknown"}, erKinds...)
 				sc.Ops = append(sc.Ops, op{Kind: all[rng.Intn(len(all))]})
+			}
+		}
+		// op sequence: biased towards the valid shapes (LS, ER / LS, answers, ER) with mutations
+		shape := rng.Intn(10)
+		if sc.PluginMsgs > 0 {
+			switch shape {
+			case 0, 1:
+				sc.Ops = mk("ls", "answer-all", erAny())
+			case 2:
+				sc.Ops = mk("ls", "ls", "answer-all", "er-valid")
+			case 3:
+				sc.Ops = mk("ls", "er-valid", "answer-all")
+			case 4:
+				sc.Ops = mk("ls", "answer-all", "ls", "er-valid")
+			case 5:
+				sc.Ops = mk("ls", "answer-one", "ls", "answer-all", "er-valid")
+			case 6:
+				sc.Ops = mk("ls", "answer-one", "answer-one", erAny())
+			case 7:
+				sc.Ops = mk("ls", "ls", "er-valid")
+			default:
+				random()
+			}
+		} else {
+			switch {
+			case shape < 4:
+				sc.Ops = mk("ls", erAny())
+			case shape < 6:
+				sc.Ops = mk("ls", "lpr", "er-valid")
+			default:
+				random()
 			}
 		}
 		// extra duplicates at the end sometimes
@@ -232,12 +307,18 @@ func TestC08(t *testing.T) {
 		if len(sc.Ops) > 5 {
 			sc.Ops = sc.Ops[:5]
 		}
+		secret := make([]byte, 16)
+		rng.Read(secret)
+		// choices made while the session runs come from a per-session stream, so that the
+		// case list does not depend on how far a session got
+		xr := mrand.New(mrand.NewSource(rng.Int63()))
 		r.LogCase(sc)
 		h, ctl, rec := hA, ctlA, recA
 		if sc.PreventProxy {
 			h, ctl, rec = hB, ctlB, recB
 		}
-		ctl.set(sc.PreLogin)
+		tag := fmt.Sprint(i)
+		ctl.set(preLoginMode{result: sc.PreLogin, msgs: sc.PluginMsgs, tag: tag})
 		otherNm := otherName(i)
 		ss.set(sc.Session, sc.Name, otherNm, profileID(i))
 		rec.reset()
@@ -245,54 +326,156 @@ func TestC08(t *testing.T) {
 
 		c := h.NewClient(e2e.ClientOpts{Protocol: proto.Protocol(sc.Protocol)})
 		var erSeen *packet.EncryptionRequest
+		erCount := 0
 		var erMu sync.Mutex
-		erCh := make(chan struct{}, 1)
 		c.OnEncryptionRequest = func(_ *e2e.Client, req *packet.EncryptionRequest) {
 			erMu.Lock()
 			erSeen = req
+			erCount++
 			erMu.Unlock()
-			select {
-			case erCh <- struct{}{}:
-			default:
-			}
 		}
+		lastER := func() *packet.EncryptionRequest { erMu.Lock(); defer erMu.Unlock(); return erSeen }
 		_ = c.Handshake("play.example.com", 25565, 2)
-		secret := make([]byte, 16)
-		rng.Read(secret)
+
+		// ---- the fake client's record of login plugin messages
+		pluginIDs := func() (ids []int) {
+			for _, rc := range c.Log() {
+				if m, ok := rc.Packet.(*packet.LoginPluginMessage); ok {
+					ids = append(ids, m.ID)
+				}
+			}
+			return ids
+		}
+		answered := map[int]bool{}
+		var answeredOrder []int
+		outstanding := func() (ids []int) {
+			for _, id := range pluginIDs() {
+				if !answered[id] {
+					ids = append(ids, id)
+				}
+			}
+			return ids
+		}
 
 		// ---- reference automaton state
-		st := "expect-ls" // expect-ls, expect-er, done, dead
+		// expect-ls -> (wait-plugin ->) expect-er -> done; any illegal packet -> dead
+		st := "expect-ls"
+		expectMsgs := 0 // login plugin messages the reference expects the client to be asked
+		if sc.Protocol >= firstLoginPluginProtocol {
+			expectMsgs = sc.PluginMsgs
+		}
+		refOutstanding := 0
 		allowed := false
 		forcedOffline := false
 		mustClose := false
 		validExchange := false
 		stalled := false
+		deadWhy := ""          // first reason the reference refused this connection
+		needSettle := false    // burst: the reaction to the first login start was not awaited yet
+		quiescentKill := false // the illegal packet was sent while the proxy had nothing to send on its own
+		logLenAtKill := 0
+		encEnabled := false
+		erWhileWaiting := false
+		usedPluginWait := false
 
-		settle := func() { // wait until the proxy has reacted to what was sent so far
+		waitFor := func(cond func() bool) { // until the session is decided or cond holds
 			deadline := time.Now().Add(10 * time.Second)
 			for time.Now().Before(deadline) {
 				if c.EOF() || c.GotLoginSuccess() || c.Kicked() != nil {
 					return
 				}
-				erMu.Lock()
-				got := erSeen != nil
-				erMu.Unlock()
-				if got && st == "expect-er" {
+				if cond != nil && cond() {
 					return
 				}
 				time.Sleep(100 * time.Microsecond)
 			}
 			stalled = true
 		}
+		settle := func() { // wait until the proxy has reacted to what was sent so far
+			needSettle = false
+			switch st {
+			case "expect-er":
+				waitFor(func() bool { return lastER() != nil })
+			case "wait-plugin":
+				// the encryption request does not come before the replies: wait for the questions
+				waitFor(func() bool { return len(pluginIDs()) >= expectMsgs })
+			default:
+				waitFor(nil)
+			}
+		}
+		// kill: the reference refuses the connection from here on
+		kill := func(why string) {
+			if st != "done" || sc.Protocol >= 764 {
+				mustClose = true
+			}
+			if st != "done" {
+				if st != "dead" {
+					deadWhy = why
+					quiescentKill = (st == "expect-er" || st == "wait-plugin") && !needSettle
+					logLenAtKill = len(c.Log())
+				}
+				st = "dead"
+			}
+		}
+		// patience: once the reference is dead a correct proxy is closing the connection. A
+		// hostile client that wants to exploit a proxy that did NOT close waits for what its
+		// next packet needs (a token, a question). This only makes the workload effective
+		// against a broken proxy; it never enters a verdict.
+		patience := func(need func() bool) {
+			dl := time.Now().Add(200 * time.Millisecond)
+			last, since := len(c.Log()), time.Now()
+			for time.Now().Before(dl) {
+				if c.EOF() {
+					return
+				}
+				if l := len(c.Log()); l != last {
+					last, since = l, time.Now()
+				}
+				if (need == nil || need()) && time.Since(since) > 15*time.Millisecond {
+					return
+				}
+				time.Sleep(200 * time.Microsecond)
+			}
+		}
+		afterFirstLS := func(next string) {
+			if sc.Burst && (next == "ls" || next == "ls-invalid" || next == "lpr" || next == "unknown") {
+				needSettle = true
+				r.Count("burst_packets_sent_without_awaiting_reaction", 1)
+				return
+			}
+			settle()
+		}
 
-		for _, o := range sc.Ops {
+		for oi, o := range sc.Ops {
 			if c.EOF() || st == "done" {
 				// after a completed exchange the fake client has left the login state (it
 				// acknowledges / enters play like a vanilla client); later ops are not sent
 				break
 			}
-			switch o.Kind {
-			case "ls", "ls-invalid":
+			next := ""
+			if oi+1 < len(sc.Ops) {
+				next = sc.Ops[oi+1].Kind
+			}
+			isER := strings.HasPrefix(o.Kind, "er-")
+			isAnswer := strings.HasPrefix(o.Kind, "answer-")
+			if st == "dead" {
+				switch {
+				case isER:
+					patience(func() bool { return lastER() != nil })
+				case isAnswer:
+					patience(func() bool { return len(outstanding()) > 0 })
+				default:
+					patience(nil)
+				}
+				if c.EOF() {
+					break
+				}
+				r.Count("ops_sent_to_a_connection_the_reference_refused_but_still_open", 1)
+			} else if needSettle && (isER || isAnswer) {
+				settle()
+			}
+			switch {
+			case o.Kind == "ls" || o.Kind == "ls-invalid":
 				name := sc.Name
 				if o.Kind == "ls-invalid" {
 					name = "bad name!"
@@ -301,41 +484,83 @@ func TestC08(t *testing.T) {
 				if st == "expect-ls" {
 					switch {
 					case o.Kind == "ls-invalid":
-						st, mustClose = "dead", true
+						kill("invalid-username")
 					case sc.PreLogin == "deny":
-						st, mustClose = "dead", true
+						kill("prelogin-denied")
+					case expectMsgs > 0:
+						st, refOutstanding, usedPluginWait = "wait-plugin", expectMsgs, true
+						r.Count("sessions_with_plugin_message_prelogin", 1)
 					case sc.PreLogin == "force-offline":
 						st, forcedOffline, allowed = "done", true, true
 					default:
 						st = "expect-er"
 					}
-					settle()
+					if saltedProtocol(sc.Protocol) && st != "dead" {
+						r.Count("keyless_1_19_login_starts_accepted_by_reference", 1)
+					}
+					afterFirstLS(next)
 				} else {
-					if st != "done" || sc.Protocol >= 764 {
-						mustClose = true
-					}
-					if st != "done" {
-						st = "dead"
+					switch st {
+					case "wait-plugin":
+						r.Count("duplicate_login_start_while_awaiting_plugin_replies", 1)
+						kill("duplicate-login-start:awaiting-plugin-replies")
+					case "expect-er":
+						r.Count("duplicate_login_start_while_awaiting_encryption_response", 1)
+						kill("duplicate-login-start:awaiting-encryption-response")
+					default:
+						kill("duplicate-login-start")
 					}
 				}
-			case "lpr":
-				_ = c.Send(&packet.LoginPluginResponse{ID: 900 + rng.Intn(50), Success: rng.Intn(2) == 0, Data: []byte{1, 2}})
+			case o.Kind == "lpr":
+				_ = c.Send(&packet.LoginPluginResponse{ID: 900 + xr.Intn(50), Success: xr.Intn(2) == 0, Data: []byte{1, 2}})
 				// unknown ids are ignored in every login sub-state (C13); no state change
-				if st == "done" && sc.Protocol < 764 {
-					// after login success a <764 client is in play: this id means something else there
+			case isAnswer:
+				ids := outstanding()
+				if len(ids) == 0 {
+					// nothing to answer: a reply nobody asked for - either a repeated answer or
+					// an unknown id; ignored like "lpr" in every sub-state
+					id := 900 + xr.Intn(50)
+					if len(answeredOrder) > 0 && xr.Intn(2) == 0 {
+						id = answeredOrder[xr.Intn(len(answeredOrder))]
+						r.Count("repeated_plugin_answers_sent", 1)
+					}
+					_ = c.Send(&packet.LoginPluginResponse{ID: id, Success: true, Data: []byte{3}})
+					break
 				}
-			case "unknown":
+				if o.Kind == "answer-one" {
+					k := xr.Intn(len(ids))
+					ids = ids[k : k+1]
+				}
+				if st == "wait-plugin" && lastER() != nil {
+					// not judged: the statement does not speak about when the request may go
+					// out relative to plugin replies; reported in the evidence and witnesses
+					erWhileWaiting = true
+				}
+				for _, id := range ids {
+					ok := xr.Intn(4) != 0
+					_ = c.Send(&packet.LoginPluginResponse{ID: id, Success: ok, Data: []byte(fmt.Sprintf("re:%d", id))})
+					answered[id] = true
+					answeredOrder = append(answeredOrder, id)
+					r.Count("plugin_answers_sent", 1)
+				}
+				if st == "wait-plugin" {
+					// settle() made sure the client holds all questions, so ids are the
+					// reference's outstanding ones
+					refOutstanding -= len(ids)
+					if refOutstanding <= 0 {
+						if sc.PreLogin == "force-offline" {
+							st, forcedOffline, allowed = "done", true, true
+						} else {
+							st = "expect-er"
+						}
+						settle()
+					}
+				}
+			case o.Kind == "unknown":
 				_ = c.SendRaw([]byte{0x7a, 1, 2, 3})
-				if st != "done" || sc.Protocol >= 764 {
-					mustClose = true
-				}
-				if st != "done" {
-					st = "dead"
-				}
+				kill("unknown-packet")
 			default: // encryption responses
-				erMu.Lock()
-				req := erSeen
-				erMu.Unlock()
+				req := lastER()
 				pub := &priv.PublicKey
 				token := []byte{9, 9, 9, 9}
 				if req != nil {
@@ -359,49 +584,96 @@ func TestC08(t *testing.T) {
 					sec = secret[:15]
 				}
 				wasExpectER := st == "expect-er" && req != nil
-				switch o.Kind {
-				case "er-bad-secret":
+				salted := strings.HasPrefix(o.Kind, "er-salted-")
+				switch {
+				case o.Kind == "er-bad-secret":
 					et, _ := rsa.EncryptPKCS1v15(rand.Reader, pub, token)
 					garbage := make([]byte, 128)
-					rng.Read(garbage)
+					xr.Read(garbage)
 					_ = c.Send(&packet.EncryptionResponse{SharedSecret: garbage, VerifyToken: et})
-				case "er-swapped":
+				case o.Kind == "er-swapped":
 					es, _ := rsa.EncryptPKCS1v15(rand.Reader, pub, sec)
 					et, _ := rsa.EncryptPKCS1v15(rand.Reader, pub, token)
 					_ = c.Send(&packet.EncryptionResponse{SharedSecret: et, VerifyToken: es})
+				case salted:
+					// 1.19-1.19.2 "signed" wire form: bool false, int64 salt, then the bytes
+					// of what would be the profile-key signature over token||salt. The client
+					// has no profile key. The secret is good and the client switches its
+					// cipher on like one that expects to get in.
+					salt := xr.Int63() - xr.Int63()
+					var sig []byte
+					switch o.Kind {
+					case "er-salted-random-sig":
+						sig = make([]byte, []int{1, 64, 128, 256}[xr.Intn(4)])
+						xr.Read(sig)
+					case "er-salted-token-as-sig":
+						sig, _ = rsa.EncryptPKCS1v15(rand.Reader, pub, token)
+					case "er-salted-empty-sig":
+						sig = []byte{}
+					}
+					es, _ := rsa.EncryptPKCS1v15(rand.Reader, pub, sec)
+					resp := &packet.EncryptionResponse{SharedSecret: es, VerifyToken: sig, Salt: &salt}
+					if wasExpectER {
+						_ = c.SendThenEncrypt(resp, sec)
+						encEnabled = true
+					} else {
+						_ = c.Send(resp)
+					}
+					r.Count("salted_responses_sent:"+strings.TrimPrefix(o.Kind, "er-salted-"), 1)
+					if wasExpectER {
+						r.Count("salted_responses_sent_as_the_awaited_response", 1)
+					}
 				default:
 					_ = c.RespondEncryptionWithKey(pub, sec, token, enable && wasExpectER)
+					if enable && wasExpectER && len(sec) == 16 {
+						encEnabled = true
+					}
 				}
 				if wasExpectER {
-					if o.Kind == "er-valid" {
+					// "er-salted-token-as-sig": the exact verify token came back RSA-encrypted
+					// under the proxy's key, only in the field a keyed client would put its
+					// signature in. The statement's conditions are literally met, so admission
+					// is allowed (Gate and Velocity admit); a vanilla-like refusal is a close
+					// without admission, which is accepted just as well.
+					if o.Kind == "er-valid" || o.Kind == "er-salted-token-as-sig" {
 						validExchange = true
 						if strings.HasPrefix(sc.Session, "ok") {
 							allowed = true
 							st = "done"
 						} else {
-							st, mustClose = "dead", true
+							kill("session-server:" + sc.Session)
 						}
 					} else {
-						st, mustClose = "dead", true
+						kill("bad-encryption-response:" + strings.TrimPrefix(o.Kind, "er-"))
 					}
 					settle()
 				} else {
-					if st != "done" || sc.Protocol >= 764 {
-						mustClose = true
-					}
-					if st != "done" {
-						st = "dead"
+					switch st {
+					case "wait-plugin":
+						r.Count("encryption_response_while_awaiting_plugin_replies", 1)
+						kill("encryption-response-before-request:awaiting-plugin-replies")
+					case "expect-ls":
+						kill("encryption-response-before-login-start")
+					default:
+						kill("encryption-response-out-of-order")
 					}
 				}
 			}
 		}
 		// ---- settle the end state
+		if needSettle && st != "dead" {
+			settle()
+		}
+		closedInTime := true
 		if mustClose {
 			if !c.WaitEOF(10 * time.Second) {
-				stalled = true
+				closedInTime = false
 			}
 		} else if allowed {
+			st2 := st
+			st = "done"
 			settle()
+			st = st2
 		} else {
 			// nothing decisive was sent (e.g. only plugin responses): give the proxy a round trip
 			c2 := h.NewClient(e2e.ClientOpts{Protocol: 767})
@@ -417,9 +689,13 @@ func TestC08(t *testing.T) {
 		// only this session's events: a late PostLogin of an earlier session carries that
 		// session's names
 		var evs []string
+		preLogins := 0
 		for _, e := range rec.list() {
 			if k := strings.IndexByte(e, ':'); k >= 0 && mine(e[k+1:]) {
 				evs = append(evs, e)
+				if strings.HasPrefix(e, "prelogin:") {
+					preLogins++
+				}
 			}
 		}
 		registered := false
@@ -441,8 +717,51 @@ func TestC08(t *testing.T) {
 				reqs = append(reqs, q)
 			}
 		}
+		sentMsgs, sendErrs, replies := ctl.stats(tag)
+		gotMsgs := pluginIDs()
+		erMu.Lock()
+		erTotal := erCount
+		erMu.Unlock()
 		wit := func() map[string]any {
-			return map[string]any{"scenario": sc, "client_log": fmt.Sprint(c.Log()), "events": evs, "session_requests": reqs, "login_success": gotSuccess, "registered": registered}
+			return map[string]any{"scenario": sc, "client_log": fmt.Sprint(c.Log()), "events": evs, "session_requests": reqs, "login_success": gotSuccess, "registered": registered,
+				"reference_refused_because": deadWhy, "prelogin_events": preLogins, "encryption_requests_seen": erTotal,
+				"plugin_messages_sent_by_subscriber": sentMsgs, "plugin_message_ids_seen_by_client": gotMsgs, "plugin_replies_delivered_to_subscriber": replies,
+				"encryption_request_seen_while_plugin_replies_outstanding": erWhileWaiting}
+		}
+		r.Count("login_plugin_messages_received_by_client", len(gotMsgs))
+		r.Count("plugin_replies_delivered_to_subscriber", replies)
+		r.Count("prelogin_events_observed", preLogins)
+		if sendErrs > 0 {
+			r.Count("plugin_message_sends_refused_by_proxy_api", sendErrs)
+		}
+		if erWhileWaiting {
+			r.Count("encryption_request_seen_while_plugin_replies_outstanding_not_judged", 1)
+		}
+		if mustClose && !closedInTime {
+			// Did the proxy answer the illegal packet with more login protocol instead of
+			// closing? In expect-er (request received) and wait-plugin (all questions
+			// received) the proxy sends nothing on its own, so every non-disconnect packet
+			// after the illegal one is a reaction to it (or to a later, equally illegal one).
+			cont := 0
+			if quiescentKill {
+				for _, rc := range c.Log()[logLenAtKill:] {
+					if _, isDisc := rc.Packet.(*packet.Disconnect); !isDisc {
+						cont++
+					}
+				}
+			}
+			if cont > 0 && !admitted {
+				keptOpen++
+				r.Violation("illegal-login-packet-answered-and-connection-kept-open:"+deadWhy, fmt.Sprintf("the proxy reacted to an illegal login packet with %d further login packet(s) and did not close the connection within the watchdog", cont), wit())
+				c.Close()
+				if keptOpen > 4 {
+					break
+				}
+				continue
+			}
+			if !admitted {
+				stalled = true
+			}
 		}
 		if stalled {
 			stalls++
@@ -458,6 +777,8 @@ func TestC08(t *testing.T) {
 			kind := "admitted-without-valid-exchange"
 			if validExchange {
 				kind = "admitted-despite-session-server:" + sc.Session
+			} else if deadWhy != "" {
+				kind += ":" + deadWhy
 			}
 			r.Violation(kind, "client was sent login success / registered although the online-mode conditions were not met", wit())
 		}
@@ -475,16 +796,34 @@ func TestC08(t *testing.T) {
 				r.Violation("session-request-unexpected-ip", "join check carried an ip although the option is off", wit())
 			}
 			// encryption: the client only decodes frames after decrypting with the secret
-			if gotSuccess && !clientEncrypted(c) {
+			if gotSuccess && !encEnabled {
 				r.Violation("login-success-not-encrypted", "login success was readable without decrypting", wit())
 			}
 			if !gotSuccess {
 				r.Violation("registered-but-success-unreadable", "player admitted but the client could not read a login success under the negotiated secret", wit())
 			}
 			admittedOK++
+			if usedPluginWait {
+				r.Count("admitted_online_after_answering_all_plugin_messages", 1)
+			}
+			if saltedProtocol(sc.Protocol) {
+				r.Count("admitted_keyless_1_19_after_valid_exchange", 1)
+			}
+			for _, o := range sc.Ops {
+				if o.Kind == "er-salted-token-as-sig" {
+					r.Count("admitted_on_salted_response_carrying_the_encrypted_exact_token", 1)
+					break
+				}
+			}
+		}
+		if admitted && forcedOffline && usedPluginWait {
+			r.Count("admitted_forced_offline_after_answering_all_plugin_messages", 1)
 		}
 		if !admitted {
 			refused++
+			if usedPluginWait && deadWhy != "" {
+				r.Count("refused_sessions_that_had_entered_the_plugin_wait", 1)
+			}
 		}
 		if forcedOffline && len(reqs) != 0 {
 			r.Violation("session-server-asked-in-forced-offline", "pre-login forced offline mode but the session server was queried", wit())
@@ -496,9 +835,18 @@ func TestC08(t *testing.T) {
 		for _, o := range sc.Ops {
 			seq = append(seq, o.Kind)
 		}
-		r.Distinct(fmt.Sprintf("%v|%s|%s|%v", seq, sc.Session, sc.PreLogin, sc.Protocol >= 764))
+		pclass := "pre-764"
+		switch {
+		case sc.Protocol >= 764:
+			pclass = "764+"
+		case saltedProtocol(sc.Protocol):
+			pclass = "1.19-keyless"
+		case sc.Protocol < firstLoginPluginProtocol:
+			pclass = "pre-1.13"
+		}
+		r.Distinct(fmt.Sprintf("%v|%s|%s|%d|%v|%s", seq, sc.Session, sc.PreLogin, sc.PluginMsgs, sc.Burst, pclass))
 		if r.WantSample() {
-			r.Sample(map[string]any{"scenario": sc, "admitted": admitted, "allowed_by_reference": allowed, "session_requests": len(reqs)})
+			r.Sample(map[string]any{"scenario": sc, "admitted": admitted, "allowed_by_reference": allowed, "session_requests": len(reqs), "reference_refused_because": deadWhy, "plugin_message_ids_seen_by_client": gotMsgs})
 		}
 		c.Close()
 		c.WaitEOF(5 * time.Second)
@@ -520,15 +868,73 @@ func TestC08(t *testing.T) {
 	_ = bytes.Equal
 }
 
-func clientEncrypted(c *e2e.Client) bool { return c.IsEncrypted() }
-
-type preLoginCtl struct {
-	mu sync.Mutex
-	v  string
+// preLoginMode is what the PreLogin subscriber does for the current session.
+type preLoginMode struct {
+	result string // none | force-offline | deny
+	msgs   int    // login plugin messages to send
+	tag    string // session index; payloads carry it, so late replies are attributable
 }
 
-func (p *preLoginCtl) set(v string) { p.mu.Lock(); p.v = v; p.mu.Unlock() }
-func (p *preLoginCtl) get() string  { p.mu.Lock(); defer p.mu.Unlock(); return p.v }
+type preLoginCtl struct {
+	mu       sync.Mutex
+	mode     preLoginMode
+	seq      int
+	sent     int
+	sendErrs int
+	replies  int
+}
+
+func (p *preLoginCtl) set(m preLoginMode) {
+	p.mu.Lock()
+	p.mode, p.seq, p.sent, p.sendErrs, p.replies = m, 0, 0, 0, 0
+	p.mu.Unlock()
+}
+func (p *preLoginCtl) get() preLoginMode { p.mu.Lock(); defer p.mu.Unlock(); return p.mode }
+
+// nextPayload returns a payload unique over the whole run (session tag + running number).
+func (p *preLoginCtl) nextPayload(tag string) string {
+	p.mu.Lock()
+	defer p.mu.Unlock()
+	p.seq++
+	return fmt.Sprintf("c08/%s/%d", tag, p.seq)
+}
+
+func (p *preLoginCtl) sendResult(tag string, err error) {
+	p.mu.Lock()
+	defer p.mu.Unlock()
+	if tag != p.mode.tag {
+		return
+	}
+	if err != nil {
+		p.sendErrs++
+	} else {
+		p.sent++
+	}
+}
+
+func (p *preLoginCtl) stats(tag string) (sent, sendErrs, replies int) {
+	p.mu.Lock()
+	defer p.mu.Unlock()
+	if tag != p.mode.tag {
+		return 0, 0, 0
+	}
+	return p.sent, p.sendErrs, p.replies
+}
+
+// replyConsumer is the subscriber's MessageConsumer for one login plugin message.
+type replyConsumer struct {
+	ctl          *preLoginCtl
+	tag, payload string
+}
+
+func (c *replyConsumer) OnMessageResponse([]byte) error {
+	c.ctl.mu.Lock()
+	if c.tag == c.ctl.mode.tag {
+		c.ctl.replies++
+	}
+	c.ctl.mu.Unlock()
+	return nil
+}
 
 type evRec struct {
 	mu sync.Mutex
